@@ -322,4 +322,8 @@ theorem edit_session_files (C : CryptoFns) (G : GpgBackend) (sslib : Bool) (file
     have := editLoop_writes C G sslib (inputs.length + 1) md inputs []
     simpa using this
 
+-- non-vacuity of `rejected_nonzero_any_stdout`: a pair that is not accepted exists (a missing trusted file), and under every stdout state its status is 1
+example (C : CryptoFns) (ep : EntryPoint) (st : Stdout) : exitStatus ep (cliVerifyUnder C st none none).1 = 1 := by
+  cases st <;> simp [cliVerifyUnder, cliVerifyMetadata, loadFile, exitStatus]
+
 end CCT.C17
